@@ -8,10 +8,12 @@ package interceptor
 import (
 	"context"
 	"fmt"
+	"strings"
 	"testing"
 
 	"google.golang.org/grpc"
 	"google.golang.org/grpc/codes"
+	"google.golang.org/grpc/metadata"
 	"google.golang.org/grpc/status"
 
 	"github.com/temporalio/s2s-proxy/vfshared"
@@ -20,6 +22,15 @@ import (
 type c15ipCase struct {
 	Allowed []string `json:"allowed"`
 	Method  string   `json:"method"`
+	Headers []string `json:"headers,omitempty"` // caller-supplied request metadata, "key=value"
+}
+
+// request metadata the proxy gives a meaning to somewhere; a remote caller can set any of it
+var c15HeaderSets = [][]string{
+	nil,
+	{"x-s2s-intra-proxy=1"},
+	{"s2s-request-translation=false"},
+	{"x-s2s-intra-proxy=1", "x-s2s-origin-proxy-id=node-a", "x-s2s-hop-count=1", "s2s-request-translation=false"},
 }
 
 func c15ipRun(c c15ipCase) error {
@@ -30,11 +41,21 @@ func c15ipRun(c c15ipCase) error {
 	acl := NewAccessControlInterceptor(vfNoopLogger(), c.Allowed, nil)
 	called := 0
 	var err error
+	ctx := context.Background()
+	if len(c.Headers) > 0 {
+		md := metadata.MD{}
+		for _, h := range c.Headers {
+			if k, v, ok := strings.Cut(h, "="); ok {
+				md.Append(k, v)
+			}
+		}
+		ctx = metadata.NewIncomingContext(ctx, md)
+	}
 	if m.ClientStream || m.ServerStream {
-		err = acl.StreamIntercept(nil, &vfFakeServerStream{ctx: context.Background()}, &grpc.StreamServerInfo{FullMethod: m.FullMethod, IsClientStream: true, IsServerStream: true},
+		err = acl.StreamIntercept(nil, &vfFakeServerStream{ctx: ctx}, &grpc.StreamServerInfo{FullMethod: m.FullMethod, IsClientStream: true, IsServerStream: true},
 			func(any, grpc.ServerStream) error { called++; return nil })
 	} else {
-		_, err = acl.Intercept(context.Background(), vfshared.NewMessage(m.In), &grpc.UnaryServerInfo{FullMethod: m.FullMethod},
+		_, err = acl.Intercept(ctx, vfshared.NewMessage(m.In), &grpc.UnaryServerInfo{FullMethod: m.FullMethod},
 			func(context.Context, any) (any, error) { called++; return vfshared.NewMessage(m.Out), nil })
 	}
 	in := false
@@ -46,7 +67,7 @@ func c15ipRun(c c15ipCase) error {
 	deny := (m.Service == "admin" && len(c.Allowed) > 0 && !in) || (m.Service == "workflow" && (m.Name == "RegisterNamespace" || m.Name == "DeprecateNamespace"))
 	if deny {
 		if status.Code(err) != codes.PermissionDenied || called != 0 {
-			return fmt.Errorf("allow-list %v: %s must be refused (err=%v, handler calls=%d)", c.Allowed, m.Name, err, called)
+			return fmt.Errorf("allow-list %v, request headers %v: %s must be refused (err=%v, handler calls=%d)", c.Allowed, c.Headers, m.Name, err, called)
 		}
 		return nil
 	}
@@ -61,7 +82,7 @@ func TestVF_C15_InProcess(t *testing.T) {
 	if rp := vfshared.ReplayPart(); rp != "" && rp != part {
 		t.Skip()
 	}
-	st := vfshared.NewStats("C15", part, "in-process: every method of both services x every singleton AdminService allow-list, the empty list, the full list and near-miss names (prefix / other case / full gRPC path) through the real AccessControlInterceptor; non-trivial = refused admin method or forwarded sole allowed method")
+	st := vfshared.NewStats("C15", part, "in-process: every method of both services x every singleton AdminService allow-list, the empty list, the full list and near-miss names (prefix / other case / full gRPC path) x caller-supplied request metadata (none / intra-proxy marker / translation-bypass / all recognised headers) through the real AccessControlInterceptor; non-trivial = refused admin method or forwarded sole allowed method")
 	defer st.Flush()
 	if f := vfshared.ReplayFile(); f != "" {
 		var c c15ipCase
@@ -90,13 +111,15 @@ func TestVF_C15_InProcess(t *testing.T) {
 	}
 	for _, l := range lists {
 		for _, m := range vfshared.Methods() {
-			c := c15ipCase{Allowed: l, Method: m.FullMethod}
-			if err := c15ipRun(c); err != nil {
-				p := vfshared.WriteReplay("C15", part, c)
-				st.Violation(p, err.Error())
-				t.Fatalf("C15 violated: %v (replay %s)", err, p)
+			for _, hs := range c15HeaderSets {
+				c := c15ipCase{Allowed: l, Method: m.FullMethod, Headers: hs}
+				if err := c15ipRun(c); err != nil {
+					p := vfshared.WriteReplay("C15", part, c)
+					st.Violation(p, err.Error())
+					t.Fatalf("C15 violated: %v (replay %s)", err, p)
+				}
+				st.Case(vfshared.Fingerprint(c), m.Service == "admin" && len(l) == 1)
 			}
-			st.Case(vfshared.Fingerprint(c), m.Service == "admin" && len(l) == 1)
 		}
 	}
 	done := true
